@@ -390,7 +390,7 @@ def pick_cut(f, data):
         return min(n, last + 1 + f.draw(max(1, n - last)))
     return f.draw(n + 1)
 
-TECHNIQUE = "deterministic simulation: seeded fault-injecting writer (torn/short/crashed/appended files) + reference reader oracle"
+TECHNIQUE = "deterministic simulation: seeded fault-injecting writer (torn/short/crashed/appended files), giant (16-257 MiB) and deeply nested inputs, one reader object read repeatedly; reference reader oracle"
 DESIGN_REF = "DESIGN.md §5 C11, §3.3"
 LEVEL_TEXT = ("seeded exploration of (token tree x layout x writer fault plan); every run is checked against an independent "
               "reference reader, for the file path (bytes a crashed or failed writer left on disk) and the string path; "
